@@ -156,6 +156,14 @@ Definition write_soon (disc : option nat) (c : chan) (it : witem) : chan * outco
 
 Definition has_crlf (s : str) : bool := memb LF s || memb CR s.
 
+(* header_name_re.fullmatch(k): rfc7230.TOKEN = 1*tchar (the pattern is regenerated and compared by
+   K-task's token sub-suite over all code points below 0x300 and on generated names) *)
+Definition is_tchar (x : N) : bool :=
+  ((48 <=? x) && (x <=? 57)) || ((65 <=? x) && (x <=? 90)) || ((97 <=? x) && (x <=? 122)) ||
+  existsb (N.eqb x) [33; 35; 36; 37; 38; 39; 42; 43; 45; 46; 94; 95; 96; 124; 126].
+Definition is_token (s : str) : bool :=
+  match s with [] => false | _ :: _ => forallb is_tchar s end.
+
 Fixpoint str_ltb (a b : str) : bool :=
   match a, b with
   | _, [] => false
@@ -455,6 +463,7 @@ Fixpoint sr_headers (t : task) (hs : list (pyobj * pyobj)) (acc : list (str * st
           | PStr v =>
               if has_crlf v then (t, Exn ValueError)
               else if has_crlf k then (t, Exn ValueError)
+              else if negb (is_token k) then (t, Exn AssertionError)   (* not a valid field-name *)
               else
                 let kl := lower k in
                 if beqb kl (lit "content-length") then
@@ -474,7 +483,8 @@ Definition start_response (t : task) (status : pyobj) (headers : list (pyobj * p
   else
     let r0 : task * outcome unit :=
       match exc with
-      | Some e => if t_wrote_header t then (t, Exn e) else (set_rh [] t, Ok tt)
+      | Some e => if t_wrote_header t then (t, Exn e)
+                  else (set_clen None (set_rh [] t), Ok tt)   (* the cleared headers take their length with them *)
       | None => (t, Ok tt)
       end in
     match r0 with
@@ -487,8 +497,12 @@ Definition start_response (t : task) (status : pyobj) (headers : list (pyobj * p
             if has_crlf s then (t, Exn ValueError)
             else
               let t := set_status s t in
+              (* the loop keeps the declared length in a local variable and assigns
+                 self.content_length after the loop: the same as recording it in the loop
+                 (sr_headers) and putting the old value back when the loop raises *)
+              let clen0 := t_clen t in
               match sr_headers t headers [] with
-              | (t, Exn e) => (t, Exn e)
+              | (t, Exn e) => (set_clen clen0 t, Exn e)
               | (t, Ok hs) => (set_rh (t_rh t ++ hs) t, Ok tt)
               end
         end
